@@ -455,14 +455,19 @@ def check(run, repo):
         pressure_default(*models.items)
         attrs = {'name': 'sp', 'misc_models': models}
         post = []
+        # the temperature bounds go in through the public names as well (ranked symbols; a class may keep them behind
+        # properties)
         if cname == 'Nasa':
             attrs.update({'a_low': coeff_vector(I, 'lo', 7), 'a_high': coeff_vector(I, 'hi', 7)})
+            post = [(k_, D.sym('sp.' + k_)) for k_ in ('T_low', 'T_mid', 'T_high')]
         elif cname == 'Nasa9':
             seg = Obj('seg0', repo.cls('pmutt.empirical.nasa.SingleNasa9'), attrs={'a': coeff_vector(I, 's', 9)})
+            for k_ in ('T_low', 'T_high'):
+                set_public(I, seg, k_, D.sym('seg0.' + k_))
             post = [('nasas', ListV([seg]))]
         else:
             attrs.update({'a': coeff_vector(I, 'a', 8)})
-            post = [('units', D.sym('units'))]
+            post = [('units', D.sym('units'))] + [(k_, D.sym('sp.' + k_)) for k_ in ('T_low', 'T_high')]
 
         def species(elements, **over):
             # what the class keeps behind a property goes in through the property (composition, segments, own unit)
